@@ -13,6 +13,9 @@ Pseudo-op (model only, not understood by the C harness): `mon` prints the flags 
 -/
 import QbVerif.Model.MapSpec
 import QbVerif.Model.Hashtable
+import QbVerif.Model.Skiplist
+import QbVerif.Model.Trie
+import QbVerif.Model.TrieSpec
 import QbVerif.Driver.Util
 
 namespace QbVerif.Driver.Map
@@ -30,8 +33,10 @@ def specImpl (fl : Flavour) : Impl := ⟨Dict, fl, fun _ _ => Dict.empty fl, Dic
 
 def impls : List (String × Impl) := [
   ("ht", ⟨Hashtable.HT, .ht, fun orig n => Hashtable.create (!orig) (!orig) n, Hashtable.HT.step⟩),
+  ("sl", ⟨Skiplist.SL, .sl, fun _ _ => Skiplist.create, Skiplist.SL.step⟩),
+  ("trie", ⟨Trie.T, .trie, fun orig _ => Trie.create (!orig) (!orig), Trie.T.step⟩),
   -- ("sl", …), ("trie", …): added by the skiplist / trie models
-  ("spec-ht", specImpl .ht), ("spec-sl", specImpl .sl), ("spec-trie", specImpl .trie)]
+  ("spec-ht", specImpl .ht), ("spec-sl", specImpl .sl), ("spec-trie", ⟨Dict, .trie, fun _ _ => Dict.empty .trie, TrieDict.step⟩)]
 
 structure Running where
   impl : Impl
